@@ -171,6 +171,68 @@ def _returns_not_none(node):
     return bool(own) and terminal(node.body) and all(value_ok(r.value) for r in own)
 
 
+class _FrontEnd(ast.NodeTransformer):
+    """Spelling-only normalisation applied to every module before indexing, so that no rule
+    depends on it: annotated assignments become plain ones (a bare annotation is a no-op),
+    and every local name of the numpy module -- ``import numpy``, ``import numpy as N``,
+    ``from numpy import zeros [as z]`` -- is rewritten to the ``np.<name>`` spelling."""
+
+    def __init__(self, mod_alias, from_names):
+        self.mod_alias = mod_alias
+        self.from_names = from_names
+
+    def visit_AnnAssign(self, n):
+        self.generic_visit(n)
+        if n.value is None:
+            return ast.copy_location(ast.Pass(), n)
+        return ast.copy_location(ast.Assign(targets=[n.target], value=n.value, type_comment=None), n)
+
+    def visit_Import(self, n):
+        for a in n.names:
+            if a.name == 'numpy':
+                a.asname = 'np'
+        return n
+
+    def visit_ImportFrom(self, n):
+        if n.module == 'numpy' and not n.level:
+            return [ast.copy_location(ast.Import(names=[ast.alias(name='numpy', asname='np')]), n), n]
+        return n
+
+    def visit_Name(self, n):
+        if n.id in self.mod_alias and isinstance(n.ctx, ast.Load):
+            return ast.copy_location(ast.Name(id='np', ctx=ast.Load()), n)
+        if n.id in self.from_names and isinstance(n.ctx, ast.Load):
+            return ast.copy_location(ast.Attribute(value=ast.copy_location(ast.Name(id='np', ctx=ast.Load()), n),
+                                                   attr=self.from_names[n.id], ctx=ast.Load()), n)
+        return n
+
+
+def _normalise_front_end(tree):
+    mod_alias, from_names, stored = set(), {}, set()
+    for n in ast.walk(tree):
+        if isinstance(n, ast.Import):
+            for a in n.names:
+                if a.name == 'numpy' and (a.asname or 'numpy') != 'np':
+                    mod_alias.add(a.asname or 'numpy')
+        elif isinstance(n, ast.ImportFrom) and n.module == 'numpy' and not n.level:
+            for a in n.names:
+                if a.name != '*':
+                    from_names[a.asname or a.name] = a.name
+        elif isinstance(n, ast.Name) and isinstance(n.ctx, (ast.Store, ast.Del)):
+            stored.add(n.id)
+        elif isinstance(n, ast.arg):
+            stored.add(n.arg)
+    # a name that is also bound as a variable somewhere in the module is left alone
+    mod_alias -= stored
+    from_names = {k: v for k, v in from_names.items() if k not in stored}
+    has_ann = any(isinstance(n, ast.AnnAssign) for n in ast.walk(tree))
+    if not (mod_alias or from_names or has_ann):
+        return tree
+    tree = _FrontEnd(mod_alias, from_names).visit(tree)
+    ast.fix_missing_locations(tree)
+    return tree
+
+
 class Program:
     def __init__(self, repo=None):
         self.repo = repo or REPO
@@ -268,6 +330,7 @@ class Program:
                     tree = ast.parse(src, filename=path)
                 except SyntaxError as e:
                     raise AnalysisError(f'cannot parse {rel}: {e}')
+                tree = _normalise_front_end(tree)
                 m = ModuleInfo(name, path, rel, src, tree)
                 self.modules[name] = m
                 self._index_module(m)
